@@ -617,6 +617,75 @@ def _mask_hang_sleeps(reqs, impl, model, reset_word):
             start = i
 
 
+def abandoned_iteration_fail():
+    """Messages a port has taken in are handed out by SOME later call: an iter_pending() / iteration that is started and
+    abandoned (break after the first message, a single next(), an exception in the loop body) has handed out what it handed
+    out - the rest stays receivable, before and after close()."""
+    import mido
+    import mido.ports as P
+
+    class Dev(P.BaseInput):
+        """a device that delivers its messages in bursts, then (optionally) fails once, then goes on"""
+        def __init__(self, bursts, **kw):
+            self.bursts = list(bursts)
+            P.BaseInput.__init__(self, 'dev', **kw)
+
+        def _receive(self, block=True):
+            if self.bursts:
+                b = self.bursts.pop(0)
+                if b == 'fail':
+                    raise OSError('transient device error')
+                self._messages.extend(mido.Message('note_on', note=n) for n in b)
+
+    def notes(ms):
+        return [m.note for m in ms]
+    for how in ('break', 'next', 'raise'):
+        for maker, label in ((lambda: Dev([[1, 2, 3, 4]]), 'a device port that took in 4 messages at once'),
+                             (None, 'an EchoPort that was sent 4 messages')):
+            if maker is None:
+                port = P.EchoPort()
+                for n in (1, 2, 3, 4):
+                    port.send(mido.Message('note_on', note=n))
+            else:
+                port = maker()
+            got = []
+            try:
+                if how == 'break':
+                    for m in port.iter_pending():
+                        got.append(m)
+                        break
+                elif how == 'next':
+                    got.append(next(port.iter_pending()))
+                else:
+                    try:
+                        for m in port.iter_pending():
+                            got.append(m)
+                            raise KeyError('consumer bug')
+                    except KeyError:
+                        pass
+                got.append(port.poll())
+                port.close()
+                got.extend(port.iter_pending())
+                got = [m for m in got if m is not None]
+            except Exception as e:      # noqa: BLE001
+                return f'{label}: abandoned iter_pending() ({how}), poll(), close(), iter_pending() raised {type(e).__name__}: {e}'
+            if notes(got) != [1, 2, 3, 4]:
+                return (f'{label}: iter_pending() abandoned after one message ({how}), then poll(), close() and a full iter_pending() hand '
+                        f'out {notes(got)}; the port took in [1, 2, 3, 4]')
+    # a transient failure of the device in the middle of a drain: what was taken in before it is still handed out afterwards
+    port = Dev([[1, 2], 'fail', [3]])
+    got = []
+    for _ in range(4):
+        try:
+            got.extend(port.iter_pending())
+        except OSError:
+            pass
+    if notes(got) != [1, 2, 3]:
+        return (f'a device port took in [1, 2], failed once (OSError) and then took in [3]: repeated iter_pending() handed out '
+                f'{notes(got)}')
+    return None
+
+
 def run(ck):
     ck.prepare_lean(extra_targets=['MidoProofs.Props.C11b'])
     ck.run_corpus(oracle)
@@ -677,6 +746,11 @@ def run(ck):
             if f:
                 ck.oracle_fail({'one_pause': [kind, action]}, f)
     ck.evaluations += 1
+    ck.count('abandoned_iteration')
+    f = abandoned_iteration_fail()
+    ck.evaluations += 1
+    if f:
+        ck.oracle_fail({'abandoned_iteration': True}, f)
     ck.count('closed_port_kinds')
     f = closed_port_kinds_fail()
     if f:
@@ -716,6 +790,8 @@ def run(ck):
 def oracle(case):
     if 'closed_port_kinds' in case:
         return closed_port_kinds_fail()
+    if 'abandoned_iteration' in case:
+        return abandoned_iteration_fail()
     if 'multi_big_child' in case:
         return multi_big_child(case['multi_big_child'])
     if 'reset_independence' in case:
